@@ -15,7 +15,7 @@
 (* an architectural cell whose change changes the result of the step must    *)
 (* lie in a reported read cell (C08.read_addr); reported addresses are       *)
 (* evaluated with IR!Eval in the pre-state.  item = architectural cell name. *)
-EXTENDS X86RW, X86SpaceLib, Json, IOUtils
+EXTENDS X86Probe, Json, IOUtils
 Recs == JsonDeserialize(IOEnv.TRACE)
 ToSet(sq) == {sq[j] : j \in 1..Len(sq)}
 \* ---- concrete addresses of the reported cells ---------------------------------------------------
@@ -52,7 +52,19 @@ Verdict(rec) ==
        Robs == ToSet(rec.robs)  Wobs == ToSet(rec.wobs)
        RECURSIVE list(_,_)
        list(c, xs) == IF xs = {} THEN <<>> ELSE LET x == CHOOSE x \in xs : TRUE IN <<[clause |-> c, item |-> x]>> \o list(c, xs \ {x})
-   IN IF core /\ Degenerate(rec.i) THEN <<[clause |-> "skip.degenerate"]>>
+       \* a degenerate instance (xor r, r; a rotate by a multiple of the width; x + 0 ...) is judged against what X86Sem!Step
+       \* really depends on and really writes there (dependency probing, X86Probe!Observed), not against the declared sets,
+       \* which over-approximate such instances
+       deg == core /\ Degenerate(rec.i)
+       ob == IF deg THEN LET ins == rec.i
+                             KS == ProbeStates(ins)
+                             S == TLCEval([k \in KS |-> [GenState(ins, 11, k) EXCEPT !.eip = EipOf(k)]])
+                             P == TLCEval([k \in KS |-> Step(ins, S[k])]) IN Observed(ins, S, P, KS)
+             ELSE d
+       cellish(x) == Len(x) >= 4 /\ SubSeq(x, 1, 4) = "mem["
+   IN IF deg THEN <<[clause |-> "skip.degenerate"]>>
+                  \o list("C08.read", {x \in ob.r : ~cellish(x)} \ Robs) \o list("C08.write", {x \in ob.w : ~cellish(x)} \ Wobs)
+                  \o AddrVerdict(rec)
       ELSE list("C08.read", d.r \ Robs) \o list("C08.write", d.w \ Wobs) \o list("C08.write_undef", d.wu \ Wobs)
            \o (IF core THEN AddrVerdict(rec) ELSE <<>>)
 VARIABLE i
